@@ -408,6 +408,7 @@ class Contract:
         self.has_events = ns.get("has_events", False)
         self.never_returns = ns.get("never_returns", False)
         self.new_object = ns.get("new_object")
+        self.static = ns.get("static")  # (E) -> {label: bool}: facts decided on the AST itself (class resolution, wiring)
         self.witness = ns.get("witness")  # () -> dict of real objects satisfying requires (vacuity guard for quantified preconditions)
 
     def __repr__(self):
